@@ -96,7 +96,7 @@ FocusTable == [
   cont     |-> [p |-> <<"w", "lf", "sp">>, n |-> 4, m |-> 5, a |-> {"-", ".", "w", "sp", "lf", ":", "#"}],
   dstruct  |-> [p |-> <<>>, n |-> 3, m |-> 4, a |-> Structural],
   dindic   |-> [p |-> <<>>, n |-> 3, m |-> 4, a |-> {"&", "*", "!", "|", ">", "'", "dq", "%", "@", "w", "lf", ".", "sp"}],
-  pstruct  |-> [p |-> <<>>, n |-> 3, m |-> 5, a |-> Structural],
+  pstruct  |-> [p |-> <<>>, n |-> 3, m |-> 4, a |-> Structural],
   pstruct8 |-> [p |-> <<>>, n |-> 4, m |-> 5, a |-> {"w", "sp", "lf", "-", ":", "[", "]", ","}],
   pblock   |-> [p |-> <<>>, n |-> 4, m |-> 6, a |-> {"w", "sp", "lf", "-", ":", "?"}],
   pflow    |-> [p |-> <<"[">>, n |-> 3, m |-> 4, a |-> {"w", ":", ",", "?", "]", "[", "{", "}", "lf", "sp"}],
